@@ -908,26 +908,27 @@ def configs(thorough):
                             c['inputs'] = 'general3'
                         C.append(c)
     sets = [[1.0], [2.0, 1.0], [0.0, 1.0, 4.0]] + ([[-1.0, 0.5], [0.123, 1.789, -2.5]] if thorough else [])
+    # (an EMPTY selection addresses nothing - it is not "no index given")
     for s in sets:
-        for idx in INDEXES:
+        for idx in INDEXES + [[]]:
             C.append({'fam': 'discrete', 'samples': s, 'index': idx})
     for ints in ('True', 'float'):
-        for idx in INDEXES:
+        for idx in INDEXES + [[]]:
             C.append({'fam': 'integers', 'ints': ints, 'index': idx})
     for fam in ('rounded', 'precision'):
         for dg in [-1, 0, 1] + ([None, 2] if thorough else []):
-            for idx in INDEXES:
+            for idx in INDEXES + [[]]:
                 C.append({'fam': fam, 'digits': dg, 'index': idx})
     for fam in ('monotonic', 'sorting'):
         for asc in (True, False):
             for outer in (False, True):
                 # (order is by POSITION: a negative index addresses a late position although it is a small number)
-                for idx in INDEXES + [[0, -1], [-1, 0], [1, -2]] + ([[0, 2, -1], [-1, -3], [-3, 1]] if thorough else []):
+                for idx in INDEXES + [[], [0, -1], [-1, 0], [1, -2]] + ([[0, 2, -1], [-1, -3], [-3, 1]] if thorough else []):
                     C.append({'fam': fam, 'asc': asc, 'outer': outer, 'index': idx})
     # settings changed through the decorated function's own setter after it has been used once
     def _tup(i):
         return None if i is None else ([i] if isinstance(i, int) else list(i))
-    moves = [(None, 0), (0, None), ([0, 2], -1), (0, [0, 2]), (-1, [0, 9])]
+    moves = [(None, 0), (0, None), ([0, 2], -1), (0, [0, 2]), (-1, [0, 9]), (None, []), ([0, 2], [])]
     for a, b in moves:
         C.append({'fam': 'discrete', 'samples': [0.0, 1.0, 4.0], 'index': b, 'via': {'from': {'index': a}, 'setter': 'index', 'value': _tup(b)}})
         C.append({'fam': 'integers', 'ints': 'float', 'index': b, 'via': {'from': {'index': a}, 'setter': 'index', 'value': _tup(b)}})
